@@ -119,6 +119,9 @@ func New(name string, o Options) (*Node, error) {
 		if st, err := os.Stat("/dev/shm"); err == nil && st.IsDir() {
 			base = "/dev/shm"
 		}
+		if b := os.Getenv("VERIF_NODE_BASE"); b != "" {
+			base = b // a child process: inside the scratch directory its parent removes
+		}
 		d, err := os.MkdirTemp(base, "labnode-")
 		if err != nil {
 			return nil, err
